@@ -38,7 +38,7 @@ goalign reformat tnt -i align.fasta
 		defer utils.CloseWriteFile(f, reformatOutput)
 
 		al := <-aligns.Achan
-		if aligns.Err != nil {
+		if al == nil {
 			err = aligns.Err
 			io.LogError(err)
 			return
